@@ -259,3 +259,168 @@ def check_derived_state(ctx, rep, rid, prog, scope=None):
         else:
             rep.holds(rid, f.decl, f, what, "every writer of what it reads also invalidates it")
     return n
+
+
+# ---- binary search vs sort order ------------------------------------------------------------
+
+SEARCHES = {"lower_bound", "upper_bound", "partition_point", "binary_search", "equal_range"}
+SORTS = {"sort", "stable_sort"}
+
+
+def _lambda_of(arg):
+    x = strip(arg, casts=True)
+    while x.get("kind") in ("CXXConstructExpr", "CXXFunctionalCastExpr", "MaterializeTemporaryExpr") and children(x):
+        x = strip(children(x)[0], casts=True)
+    return x if x.get("kind") == "LambdaExpr" else None
+
+
+def _lambda_params_and_return(lam):
+    lf = lam.get("_lam")
+    if lf is None:
+        return None, None
+    rets = [y for y in walk(lf.body) if y.get("kind") == "ReturnStmt" and children(y)]
+    if len(rets) != 1:
+        return lf.params, None
+    return lf.params, canon(children(rets[0])[0])
+
+
+def _key_path(c, pid):
+    """('first','minX') for elem.first.minX where elem is lambda parameter pid; () for the element itself."""
+    path = []
+    while c[0] == "field":
+        path.append(str(c[1]).split("::")[-1])
+        c = c[2]
+    if c[0] == "call" and len(c) == 3 and c[2] != ("none",):     # accessor method on the element
+        inner_path = _key_path(c[2], pid)
+        if inner_path is not None:
+            return inner_path + (str(c[1]).split("::")[-1] + "()",) + tuple(reversed(path))
+    if c[0] == "var" and c[1] == pid:
+        return tuple(reversed(path))
+    return None
+
+
+def _primary_key(ret, params):
+    """Primary ordering key of a comparator `a.K < b.K [|| tie-breakers]` -> key path, or None."""
+    if ret is None or len(params) < 2:
+        return None
+    c = ret
+    while c[0] == "bin" and c[1] == "||":
+        c = c[2]
+    if c[0] == "bin" and c[1] in ("<", ">"):
+        ka = _key_path(c[2], params[0].get("id"))
+        kb = _key_path(c[3], params[1].get("id"))
+        if ka is not None and ka == kb:
+            return ka
+    return None
+
+
+def _search_key(ret, params):
+    """Key path of the element side in a search predicate: `elem.K < value`, `value < elem.K`, `elem.K <= X`."""
+    if ret is None:
+        return None
+    c = ret
+    if c[0] != "bin" or c[1] not in ("<", ">", "<=", ">="):
+        return None
+    keys = []
+    for p in params:
+        for side in (c[2], c[3]):
+            k = _key_path(side, p.get("id"))
+            if k is not None:
+                keys.append(k)
+    keys = [k for k in keys if k != () or len(params) == 1]
+    nonempty = [k for k in keys if k]
+    if nonempty:
+        return nonempty[0]
+    return keys[0] if keys else None
+
+
+def container_of_range(first, last):
+    a, b = canon(first), canon(last)
+    if a[0] == "call" and a[1] in ("begin", "cbegin") and b[0] == "call" and b[1] in ("end", "cend") and a[2] == b[2]:
+        return a[2]
+    return None
+
+
+def check_sort_keys(ctx, rep, rid, funcs):
+    """Every binary search over a container must use the key the container was sorted by."""
+    prog = ctx.prog
+    # ordering facts: container canon -> (key, where)
+    orders = {}
+    for f in prog.all_funcs(with_lambdas=False):
+        for x in walk(f.body):
+            if x.get("kind") == "CallExpr" and callee_info(x)["name"] in SORTS and callee_info(x)["external"]:
+                args = callee_info(x)["args"]
+                if len(args) < 2:
+                    continue
+                cont = container_of_range(args[0], args[1])
+                if cont is None:
+                    continue
+                if len(args) >= 3:
+                    lam = _lambda_of(args[2])
+                    if lam is None:
+                        continue
+                    params, ret = _lambda_params_and_return(lam)
+                    key = _primary_key(ret, params or [])
+                    full = ret
+                else:
+                    key, full, params = ("<natural>",), None, None
+                scope = f.key if cont[0] == "var" else "<class>"
+                orders[(scope, _strip_ids(cont))] = (key, full, params, f, x)
+    n = 0
+    for f in funcs:
+        for x in walk(f.body):
+            if x.get("kind") != "CallExpr" or callee_info(x)["name"] not in SEARCHES or not callee_info(x)["external"]:
+                continue
+            args = callee_info(x)["args"]
+            if len(args) < 2:
+                continue
+            cont = container_of_range(args[0], args[1])
+            if cont is None:
+                continue
+            scope = f.key if cont[0] == "var" else "<class>"
+            fact = orders.get((scope, _strip_ids(cont)))
+            name = callee_info(x)["name"]
+            what = "%s over %s" % (name, pretty(cont))
+            if fact is None:
+                rep.note("%s in %s: no sort of %s found, order not checked" % (name, f.short, pretty(cont)))
+                continue
+            n += 1
+            skey, sfull, sparams, sf, sx = fact
+            lam = _lambda_of(args[-1]) if len(args) >= (3 if name == "partition_point" else 4) else None
+            if lam is None and name != "partition_point":
+                key = ("<natural>",)
+            elif lam is None:
+                rep.unknown(rid, x, f, what, "predicate is not a lambda")
+                continue
+            else:
+                params, ret = _lambda_params_and_return(lam)
+                if params and sparams and len(params) == 2 and ret is not None and sfull is not None and \
+                        _rename(ret, params) == _rename(sfull, sparams):
+                    rep.holds(rid, x, f, what, "comparator identical to the one the container was sorted with (%s)" % loc_str(sx))
+                    continue
+                key = _search_key(ret, params or [])
+            if key is None or skey is None:
+                rep.unknown(rid, x, f, what, "ordering key not recognised (search: %s, sort: %s)" % (key, skey))
+            elif key == skey:
+                rep.holds(rid, x, f, what, "searches on %s, the key %s is sorted by (%s)" % (".".join(key), pretty(cont), loc_str(sx)))
+            else:
+                rep.violation(rid, x, f, what, "binary search on key %s, but %s is sorted by %s (at %s): the range is not partitioned with respect to the predicate" % (
+                    ".".join(key), pretty(cont), ".".join(skey), loc_str(sx)), key="%s|%s on wrong key" % (f.short, name))
+    return n
+
+
+def _strip_ids(c):
+    if not isinstance(c, tuple):
+        return c
+    if c and c[0] == "var":
+        return ("var", c[2])
+    return tuple(_strip_ids(x) for x in c)
+
+
+def _rename(c, params):
+    ids = {p.get("id"): "p%d" % i for i, p in enumerate(params)}
+    if not isinstance(c, tuple):
+        return c
+    if c and c[0] == "var":
+        return ("var", ids.get(c[1], c[2]))
+    return tuple(_rename(x, params) for x in c)
